@@ -564,6 +564,17 @@ class ReaderTranslator:
             return toks + [("POP", name)], ("popped", name)
         if fn == "struct.unpack" and len(args) == 2:
             return toks, ("unpack", args[0], args[1])
+        if fn == "int.from_bytes" and args and isinstance(args[0], tuple) and args[0][0] == "bytes" and args[0][2][0] == "const" and args[0][2][1] in (1, 2, 4, 8):
+            # int.from_bytes(<n bytes read>, "big", signed=...) is struct's network-order integer of that width
+            order = args[1] if len(args) > 1 else None
+            kws = {k.arg: self.repo.fold_in(k.value, fi) for k in c.keywords}
+            if order is None and "byteorder" in kws:
+                order = ("const", kws["byteorder"])
+            signed = kws.get("signed", False)
+            if order == ("const", "big") and isinstance(signed, bool):
+                code = {1: "b", 2: "h", 4: "i", 8: "q"}[args[0][2][1]]
+                fmt = "!" + (code if signed else code.upper())
+                return toks, ("index", ("unpack", ("const", fmt), args[0]), ("const", 0))
         sb = self.repo.struct_binding(c.func, fi)
         if sb is not None and sb[1] == "unpack" and len(args) == 1:
             return toks, ("unpack", ("const", sb[0]), args[0])
